@@ -1,13 +1,12 @@
 #!/bin/sh
-# development tool: tools/try_seed.sh <patch.diff> <check-id>...   applies a seeded change to /repo, runs the checks, restores /repo
-P="$1"; shift
+# development tool: tools/try_seed.sh <patch.diff> <check-id> [extra check args...]   applies a seeded change to /repo, runs the check, ALWAYS restores /repo
+P="$1"; C="$2"; shift 2
 cd /repo || exit 2
 git diff --quiet || { echo "/repo has local changes"; exit 2; }
-git apply "$P" 2>/dev/null || git apply --3way "$P" 2>/dev/null || { echo "PATCH DOES NOT APPLY: $P"; git checkout -- . ; exit 3; }
+restore() { git -C /repo checkout -- . ; git -C /repo reset -q; }
+trap restore EXIT INT TERM
+git apply "$P" 2>/dev/null || git apply --3way "$P" 2>/dev/null || { echo "PATCH DOES NOT APPLY: $P"; exit 3; }
 cd /verif
-for c in "$@"; do
-  OUT=$(./check "$c" 2>&1); RC=$?
-  echo "== $c rc=$RC: $(echo "$OUT" | grep -c '^VIOLATION') violation keys; $(echo "$OUT" | grep -m1 "^$c tier")"
-  echo "$OUT" | grep "^  violated" | cut -c1-260 | head -4
-done
-git -C /repo checkout -- . ; git -C /repo reset -q
+OUT=$(./check "$C" "$@" 2>&1); RC=$?
+echo "== $C rc=$RC: $(echo "$OUT" | grep -c '^VIOLATION') violation keys; $(echo "$OUT" | grep -m1 "^$C tier")"
+echo "$OUT" | grep "^  violated\|BROKEN" | cut -c1-300 | head -5
